@@ -2518,6 +2518,95 @@ fn c19_dropped_outside_runtime(dir: PathBuf) -> ScenFut<'static> {
     })
 }
 
+/// The block handles in a table's footer (which no checksum covers) are given sizes and
+/// offsets that reach beyond the file.
+fn c16_footer_handle_beyond_file(dir: PathBuf) -> ScenFut<'static> {
+    Box::pin(async move {
+        fn get_varint(buf: &[u8]) -> Option<(u64, usize)> {
+            let (mut v, mut shift) = (0u64, 0);
+            for (i, b) in buf.iter().enumerate().take(10) {
+                v |= ((b & 0x7f) as u64) << shift;
+                if b & 0x80 == 0 {
+                    return Some((v, i + 1));
+                }
+                shift += 7;
+            }
+            None
+        }
+        fn put_varint(mut v: u64, out: &mut Vec<u8>) {
+            while v >= 0x80 {
+                out.push((v as u8) | 0x80);
+                v >>= 7;
+            }
+            out.push(v as u8);
+        }
+        let cfg = Cfg { flush_on_close: true, block_size: 512, ..base_cfg() };
+        let t = cfg.open(&dir).map_err(|e| e.to_string())?;
+        for i in 0..200u32 {
+            put(&t, &[(format!("key{i:04}").as_bytes(), format!("value{i:04}-{}", "x".repeat(30)).as_bytes())]).await?;
+        }
+        close(t).await;
+        let sst = std::fs::read_dir(dir.join("sstables")).map_err(|e| e.to_string())?.flatten().map(|e| e.path()).find(|p| p.extension().map(|x| x == "sst").unwrap_or(false)).ok_or("no table file")?;
+        let pristine = std::fs::read(&sst).map_err(|e| e.to_string())?;
+        // footer: 50 bytes at the end; 2 bytes, then meta-index handle and index handle as varints
+        let f = pristine.len() - 50;
+        let mut p = f + 2;
+        let mut fields = vec![];
+        for _ in 0..4 {
+            let (v, n) = get_varint(&pristine[p..]).ok_or("harness: footer layout not understood")?;
+            fields.push((p, v, n));
+            p += n;
+        }
+        let file_len = pristine.len() as u64;
+        for (which, name) in [(1usize, "size of the meta-index handle"), (3, "size of the index handle"), (0, "offset of the meta-index handle"), (2, "offset of the index handle")] {
+            for huge in [1u64 << 63, 1 << 40, file_len, file_len * 2] {
+                let mut vals: Vec<u64> = fields.iter().map(|x| x.1).collect();
+                vals[which] = huge;
+                let mut enc = vec![];
+                for v in &vals {
+                    put_varint(*v, &mut enc);
+                }
+                if fields[0].0 + enc.len() > f + 42 {
+                    continue;
+                }
+                let mut bytes = pristine.clone();
+                bytes[fields[0].0..f + 42].fill(0);
+                bytes[fields[0].0..fields[0].0 + enc.len()].copy_from_slice(&enc);
+                std::fs::write(&sst, &bytes).map_err(|e| e.to_string())?;
+                let d2 = dir.clone();
+                let cfg2 = cfg.clone();
+                let r = std::panic::catch_unwind(std::panic::AssertUnwindSafe(|| cfg2.open(&d2)));
+                match r {
+                    Err(_) => {
+                        let _ = std::fs::write(&sst, &pristine);
+                        return Err(format!("200 keys in one table; the {name} in the table's footer set to {huge}: opening the store panics: {}", crate::panics::take_last()));
+                    }
+                    Ok(Err(_)) => {}
+                    Ok(Ok(t)) => {
+                        // whatever opens must serve the written data or errors
+                        let mut wrong = None;
+                        for i in (0..200u32).step_by(7) {
+                            let want = format!("value{i:04}-{}", "x".repeat(30)).into_bytes();
+                            match get1(&t, format!("key{i:04}").as_bytes()) {
+                                Ok(Some(v)) if v == want => {}
+                                Err(_) => {}
+                                Ok(other) => wrong = Some((i, other.map(|v| v.len()))),
+                            }
+                        }
+                        close(t).await;
+                        if let Some((i, got)) = wrong {
+                            let _ = std::fs::write(&sst, &pristine);
+                            return Err(format!("the {name} in the table's footer set to {huge}: the store opens and get(key{i:04}) returns {got:?} instead of the written value or an error"));
+                        }
+                    }
+                }
+            }
+        }
+        std::fs::write(&sst, &pristine).map_err(|e| e.to_string())?;
+        Ok(())
+    })
+}
+
 fn c16_filter_block_unchecked(dir: PathBuf) -> ScenFut<'static> {
     Box::pin(async move {
         use surrealkv::verif::{verif_table_write, VerifEntry, VerifTableHandle};
@@ -3247,6 +3336,12 @@ pub fn all() -> Vec<Scenario> {
             property: "C02",
             title: "a commit past the shutdown check runs on while close() flushes and closes the commit log",
             run: c02_commit_overlapping_close,
+        },
+        Scenario {
+            id: "C16-footer-handle-beyond-file",
+            property: "C16",
+            title: "offsets and sizes of the footer's block handles set beyond the end of the table file",
+            run: c16_footer_handle_beyond_file,
         },
         Scenario {
             id: "C16-filter-block-unchecked",
